@@ -80,10 +80,6 @@ func TestC33(t *testing.T) {
 			st.op = []string{"sleep", "sleep", "sleep", "publish", "subscribe", "ping", "disconnect"}[rng.Intn(7)]
 			if st.op == "sleep" {
 				st.d = []time.Duration{time.Second, K, 3 * K, RD + time.Second}[rng.Intn(4)]
-				if st.d < time.Second {
-					// the sleep duration travels in whole seconds: a sub-second Sleep() is a plain DISCONNECT on the wire
-					st.d = time.Second
-				}
 				st.then = []string{"connect", "sleep-again-then-connect"}[rng.Intn(2)]
 			}
 			steps = append(steps, st)
